@@ -224,6 +224,9 @@ func thorough(p *propDef, repo, verif string, known []KnownFinding) (int, map[st
 	info["variants_fired"] = nf
 	info["variants_stale"] = ns
 	info["benign_silent"] = nb
+	if failures == nil {
+		failures = []string{}
+	}
 	info["failures"] = failures
 	if len(failures) > 0 {
 		return 1, info
